@@ -87,10 +87,6 @@ pub fn authorised(tx: &Transaction, l: &RefLedger, h: u64, g: u64) -> Result<(),
     Ok(())
 }
 
-/// window don't-care: an input created exactly at h-g
-fn window_dont_care(tx: &Transaction, h: u64, g: u64) -> bool {
-    tx.from.iter().any(|s| s.amount > 0 && s.block_id + g == h)
-}
 
 pub struct Position {
     pub name: String,
@@ -424,7 +420,8 @@ fn attacker_block(w: &World, parent: usize, c: &Candidate, first: bool) -> Resul
     let ts = w.child_ts(parent, 500);
     let id = w.blocks[parent].id + 1;
     let mut txs = vec![];
-    let honest = w.payment(parent, &key(1), &key(2).public, 321, 0, ts);
+    // the honest by-stander must not collide with the candidate's own inputs
+    let honest = w.payment(parent, &key(1), &key(2).public, 321, 0, ts).filter(|h| !h.from.iter().any(|a| c.tx.from.iter().any(|b| a.get_utxoset_key() == b.get_utxoset_key())));
     if !first {
         if let Some(h) = honest.clone() {
             txs.push(h);
@@ -472,12 +469,12 @@ fn attacker_block(w: &World, parent: usize, c: &Candidate, first: bool) -> Resul
     Ok(block_bytes(&b))
 }
 
-fn gate_block(w: &World, p: &Position, c: &Candidate, first: bool, side: bool) -> (Verdict, String) {
+fn gate_block(w: &World, p: &Position, tip: usize, c: &Candidate, first: bool, side: bool) -> (Verdict, String) {
     let (parent, pre): (usize, Vec<usize>) = if side {
         let (old_tip, side_parent) = p.side.unwrap();
         (side_parent, vec![old_tip])
     } else {
-        (p.tip, vec![])
+        (tip, vec![])
     };
     let bytes = match attacker_block(w, parent, c, first) {
         Ok(b) => b,
@@ -524,10 +521,41 @@ pub fn main(tier: Tier, _replay: Option<String>) -> i32 {
     rep.rule = "position x edit x gate; distinct = (position, edit, gate) triples evaluated with a definite verdict; a triple is non-trivial when its unedited twin is accepted at the same position and gate".into();
     rep.assumptions = vec![
         "the attacker can sign with its own key and the block-creator key it owns, and replay but not forge others' signatures".into(),
-        "an input created exactly genesis_period blocks before the spending block is a don't-care (window edge)".into(),
+        "the window edge is exact: at block h an input created at h-g is inside the window, one created at h-g-1 (the block being rebroadcast by h) is not".into(),
         "reference ledger: set of output coordinates replayed from the harness's own block bytes".into(),
     ];
-    let mut jobs: Vec<(usize, Candidate)> = vec![];
+    let mut jobs: Vec<(usize, usize, Candidate)> = vec![];
+    // the window edge, swept: at every height of the two wrapped chains, every unspent output of
+    // every key and every age up to g+3 is spent by its owner; the reference decides which are
+    // still inside the window (age <= g) and which are not (age g+1 is the block being rebroadcast)
+    for (pi, p) in ps.iter().enumerate() {
+        if !p.name.starts_with("wrapped") {
+            continue;
+        }
+        let g = p.w.cfg.consensus.genesis_period;
+        let mut n_age = 0;
+        for tip in p.w.path(p.tip) {
+            let h = p.w.blocks[tip].id + 1;
+            if h <= 2 {
+                continue;
+            }
+            let ts = p.w.blocks[tip].ts + 77;
+            for ki in 0..6u8 {
+                let kk = key(ki);
+                for s in p.w.ledgers[tip].unspent_of(&kk.public) {
+                    let age = h - s.block_id;
+                    if s.amount == 0 || age > g + 3 || s.slip_type == SlipType::Bound {
+                        continue;
+                    }
+                    let tx = make_tx(&[s.clone()], &[(kk.public, s.amount)], &kk, ts, b"age");
+                    let rel = age as i64 - g as i64;
+                    jobs.push((pi, tip, Candidate { edit: format!("owner-spend-at-age-g{:+}", rel), tx, tx2: None, control: age <= g }));
+                    n_age += 1;
+                }
+            }
+        }
+        rep.extra.insert(format!("age-sweep:{}", p.name), json!({"spends": n_age}));
+    }
     for (pi, p) in ps.iter().enumerate() {
         let cs = candidates(p);
         if cs.len() < 20 {
@@ -535,16 +563,17 @@ pub fn main(tier: Tier, _replay: Option<String>) -> i32 {
         }
         rep.extra.insert(format!("position:{}", p.name), json!({"height": p.w.blocks[p.tip].id, "candidates": cs.len(), "expired_but_present_output": p.expired_present.is_some()}));
         for c in cs {
-            jobs.push((pi, c));
+            jobs.push((pi, p.tip, c));
         }
     }
-    let results = par_map(&jobs, workers(), |_, (pi, c)| {
+    let results = par_map(&jobs, workers(), |_, (pi, tip, c)| {
         let p = &ps[*pi];
+        let tip = *tip;
         let w = &p.w;
         let mut r = rep.child();
         let g = w.cfg.consensus.genesis_period;
-        let h = w.blocks[p.tip].id + 1;
-        let l = &w.ledgers[p.tip];
+        let h = w.blocks[tip].id + 1;
+        let l = &w.ledgers[tip];
         let mut auth = authorised(&c.tx, l, h, g);
         if auth.is_ok() {
             if let Some(t2) = &c.tx2 {
@@ -555,7 +584,7 @@ pub fn main(tier: Tier, _replay: Option<String>) -> i32 {
                 }
             }
         }
-        let dont_care = window_dont_care(&c.tx, h, g);
+        let dont_care = false;
         if c.control && auth.is_err() {
             r.machinery(format!("control {} at {} is not authorised per the oracle: {:?}", c.edit, p.name, auth));
             return r;
@@ -567,31 +596,31 @@ pub fn main(tier: Tier, _replay: Option<String>) -> i32 {
         let mut verdicts: Vec<(String, Verdict, String)> = vec![];
         let is_gt = c.tx.transaction_type == TransactionType::GoldenTicket;
         if c.tx2.is_none() {
-            if let Ok(n) = w.node_at(p.tip, key(9)) {
+            if let Ok(n) = w.node_at(tip, key(9)) {
                 if !is_gt {
                     verdicts.push(("pool".into(), gate_pool(&n, &c.tx), String::new()));
                 }
                 verdicts.push(("verify_tx".into(), gate_verify(&n, &c.tx), String::new()));
             }
-        } else if let Ok(n) = w.node_at(p.tip, key(9)) {
+        } else if let Ok(n) = w.node_at(tip, key(9)) {
             // pool gate for the pair: both admitted?
             let a = gate_pool(&n, &c.tx);
             let b = gate_pool(&n, c.tx2.as_ref().unwrap());
             let v = if a == Verdict::Accepted && b == Verdict::Accepted { Verdict::Accepted } else { Verdict::Rejected };
             verdicts.push(("pool".into(), v, String::new()));
         }
-        let (v, d) = gate_block(w, p, c, false, false);
+        let (v, d) = gate_block(w, p, tip, c, false, false);
         verdicts.push(("block:tip".into(), v, d));
-        let (v, d) = gate_block(w, p, c, true, false);
+        let (v, d) = gate_block(w, p, tip, c, true, false);
         verdicts.push(("block:tip-first".into(), v, d));
-        if p.side.is_some() {
-            let (v, d) = gate_block(w, p, c, false, true);
+        if p.side.is_some() && tip == p.tip {
+            let (v, d) = gate_block(w, p, tip, c, false, true);
             verdicts.push(("block:side-chain".into(), v, d));
         }
         for (gate, v, d) in verdicts {
             r.evaluations += 1;
             r.transitions += 1;
-            let case = json!({"position": p.name, "edit": c.edit, "gate": gate, "tx": hex::encode(c.tx.serialize_for_net()), "oracle": format!("{:?}", auth), "detail": d});
+            let case = json!({"position": p.name, "height": h, "edit": c.edit, "gate": gate, "tx": hex::encode(c.tx.serialize_for_net()), "oracle": format!("{:?}", auth), "detail": d});
             if r.samples.is_empty() && c.edit == "foreign-extra-input" {
                 r.sample(case.clone());
             }
